@@ -129,6 +129,8 @@ pub fn c05_special(rep: &mut Rep) {
         "1,CONSUMO,CAL,EAMBIENTE,9,12\n2,CONSUMO,CAL,EAMBIENTE,5,5\n1,CONSUMO,ACS,EAMBIENTE,4,12\n1,PRODUCCION,EAMBIENTE,4,30\n2,PRODUCCION,EAMBIENTE,1,9\n3,CONSUMO,ILU,ELECTRICIDAD,1,1",
         "-1,CONSUMO,ACS,TERMOSOLAR,30\n0,CONSUMO,ACS,TERMOSOLAR,10\n-1,CONSUMO,CAL,TERMOSOLAR,30\n-1,PRODUCCION,TERMOSOLAR,25\n0,CONSUMO,CAL,TERMOSOLAR,2\n1,CONSUMO,ILU,ELECTRICIDAD,1",
         "DEMANDA,CAL,100,50,0\nDEMANDA,ACS,20,20,20\nDEMANDA,CAL,30,10,5\nDEMANDA,ACS,10,10,10\nDEMANDA,REF,0,0,7\n1,CONSUMO,CAL,GASNATURAL,150,70,6\n1,CONSUMO,ACS,GASNATURAL,35,35,35",
+        // demand lines that repeat: two identical zones, a third line equal to the running total of the first two
+        "DEMANDA,CAL,100,50\nDEMANDA,CAL,100,50\nDEMANDA,REF,50,10\nDEMANDA,REF,100,30\nDEMANDA,REF,150,40\nDEMANDA,ACS,10,20\nDEMANDA,ACS,10,20\nDEMANDA,ACS,10,20\n1,CONSUMO,CAL,GASNATURAL,150,70",
         // free-text comments that contain words of the format itself (header words, tags, the metadata marker)
         "1,CONSUMO,CAL,EAMBIENTE,9,12 # vector ambiente captado por la BdC\n1,CONSUMO,CAL,ELECTRICIDAD,3,4 # CONSUMO de la bomba, vector electricidad\n2,CONSUMO,ACS,TERMOSOLAR,5,0 # PRODUCCION solar, tipo vector\nDEMANDA,ACS,12,13 # demanda del vector ACS, #META no\n2,PRODUCCION,TERMOSOLAR,1,0 # vector,tipo,src_dst\n3,CONSUMO,ILU,ELECTRICIDAD,1,1 # DEMANDA, AUX, SALIDA",
         // declared production that carries the comment of the automatic completion (e.g. a file written out by the program and edited): surplus, no use, second line
@@ -300,6 +302,9 @@ pub fn c06_special(rep: &mut Rep) {
         ("C06.aux_of_cogeneration_only_system", "1,CONSUMO,COGEN,GASNATURAL,100\n1,PRODUCCION,EL_COGEN,30\n1,AUX,5\n3,CONSUMO,ILU,ELECTRICIDAD,10", 5.0f32),
         ("C06.special", "1,CONSUMO,COGEN,GASNATURAL,100\n1,CONSUMO,CAL,GASNATURAL,40\n1,SALIDA,CAL,30\n1,PRODUCCION,EL_COGEN,30\n1,AUX,5\n3,CONSUMO,ILU,ELECTRICIDAD,10", 5.0),
         ("C06.special", "1,CONSUMO,CAL,BIOMASA,100\n1,AUX,5\n2,CONSUMO,ACS,GASNATURAL,100\n2,AUX,3", 8.0),
+        // a system declared only through its outputs and its auxiliaries (a pump group, no CONSUMO line), one and two services
+        ("C06.counted_in_balance", "1,CONSUMO,CAL,GASNATURAL,100,80\n1,SALIDA,CAL,90,72\n2,AUX,6,4\n2,SALIDA,CAL,50,40", 10.0),
+        ("C06.counted_in_balance", "1,CONSUMO,CAL,GASNATURAL,100,80\n2,AUX,6,4\n2,SALIDA,CAL,50,40\n2,SALIDA,ACS,10,10\n3,PRODUCCION,EL_INSITU,1,1", 10.0),
     ] {
         rep.evals += 1;
         let comps: Components = match text.parse() { Ok(c) => c, Err(e) => { rep.fail(clause, text, format!("rejected: {}", e)); continue } };
@@ -877,6 +882,21 @@ pub fn c16(rep: &mut Rep, seed: u64) {
         if let Err(e) = r {
             let msg = e.downcast_ref::<String>().cloned().or_else(|| e.downcast_ref::<&str>().map(|s| s.to_string())).unwrap_or_else(|| "panic".into());
             rep.fail("C16.no_panic", &text, format!("the library panicked on a metadata line: {}", msg));
+        }
+    }
+    // location names as a caller (or the CTE_LOCALIZACION metadata of a file) may spell them, with the regulatory table and with a table of the caller's
+    // that lacks some of the regulatory locations: a result or an error, never a panic
+    {
+        let mut partial: std::collections::HashMap<&'static str, Factors> = Default::default();
+        if let Ok(f) = cte::wfactors_from_loc("PENINSULA", &cte::CTE_LOCWF_RITE2014, UserWF { red1: None, red2: None }, cte::CTE_USERWF) { partial.insert("PENINSULA", f); }
+        for loc in ["PENINSULA", "Peninsula", "peninsula", " PENINSULA", "PENINSULA ", "canarias", "Canarias", "BALEARES", "baleares", "CEUTAMELILLA", "CeutaMelilla", "CEUTA", "MADRID", "", " ", "PENÍNSULA", "peninsula\n", "\u{feff}PENINSULA"] {
+            rep.evals += 1;
+            let l2 = loc.to_string(); let p2 = partial.clone();
+            let r = panic::catch_unwind(move || {
+                let _ = cte::wfactors_from_loc(&l2, &cte::CTE_LOCWF_RITE2014, UserWF { red1: None, red2: None }, cte::CTE_USERWF);
+                let _ = cte::wfactors_from_loc(&l2, &p2, UserWF { red1: None, red2: None }, cte::CTE_USERWF);
+            });
+            if r.is_err() { rep.fail("C16.no_panic", loc, format!("wfactors_from_loc panicked on the location name {:?}", loc)); }
         }
     }
     let soups = ["", "0.5", "NaN", "1,2", "1,2,3", "1,2,3,4", " , , ", "a,b,c", "1e400,0,0", "-1,-2,-3", "{ ren: 1.0, nren: 2.0, co2: 3.0 }", "{ ren: x }", "ñ", "\u{feff}1,2,3", "ELECTRICIDAD", "electricidad", "EL_INSITU", "A_RED", "B", "CAL", "COGEN", "#"];
